@@ -30,7 +30,7 @@ import (
 func TestC19(t *testing.T) {
 	r := report.Start("C19")
 	defer r.Finish()
-	nh := r.Pick(32, 800)
+	nh := r.Cases(32, 800)
 	for i := 0; i < nh; i++ {
 		id := fmt.Sprintf("hist/%d", i)
 		if !r.Want(id, i) {
